@@ -325,7 +325,7 @@ def build(spec):
                     # _yatiml_extra declared among the other parameters (before the defaulted ones)
                     pos = 1 + c['extra_pos']
                     before_def = not any(len(p) > 2 for p in params[:c['extra_pos']])
-                    sig.insert(pos, '_yatiml_extra: OrderedDict' + ('' if before_def else ' = None'))
+                    sig.insert(pos, '_yatiml_extra: OrderedDict' + ('' if (before_def and c.get('extra') != 'opt') else ' = None'))
                 else:
                     sig.append('_yatiml_extra: OrderedDict' + (' = None' if (c.get('extra') == 'opt' or anydef) else ''))
                 body.append("    kw['_yatiml_extra'] = _yatiml_extra; self._yatiml_extra = "
@@ -356,6 +356,10 @@ def build(spec):
                     b.registered.append(cls)
                 continue
             cls = type(name, bases or (object,), ns)
+        if c.get('pyname'):
+            # the Python-level name differs from the key used in the spec (two classes with the same __name__)
+            cls.__name__ = c['pyname']
+            cls.__qualname__ = c['pyname']
         b.classes[name] = cls
         if c.get('registered', True):
             b.registered.append(cls)
